@@ -321,15 +321,21 @@ def compare(sc, pred, obs, eps=None):
 
 # ---------------------------------------------------------------- oracles (no model involved)
 
-def stopped_intervals(sc):
-    """[(t_stop, t_cont)] in ms from the scenario's TSTP/CONT signals"""
+def stopped_intervals(sc, obs=None):
+    """[(t_stop, t_cont)] in ms: from the times the SIGTSTP / SIGCONT signals were actually sent when the run
+    recorded them (the trigger thread may be late under load), else from the scenario's schedule"""
     u = sc["u"]
     out, cur = [], None
-    for t, name in sc["sigs"]:
+    sent = (obs or {}).get("sent")
+    if sent and len(sent) <= len(sc["sigs"]):
+        evs = [(t, {int(signal.SIGTSTP): "TSTP", int(signal.SIGCONT): "CONT"}.get(int(sg))) for t, sg in sent]
+    else:
+        evs = [(t * u, name) for t, name in sc["sigs"]]
+    for t, name in evs:
         if name == "TSTP" and cur is None:
-            cur = t * u
+            cur = t
         elif name == "CONT" and cur is not None:
-            out.append((cur, t * u))
+            out.append((cur, t))
             cur = None
     return out
 
@@ -384,7 +390,7 @@ def oracle_C09(sc, obs):
         return w
     u = sc["u"]
     eps = 0.45 * u
-    stops = stopped_intervals(sc)
+    stops = stopped_intervals(sc, obs)
     if any(n in SHUT for _, n in sc["sigs"]):
         return None  # shutdown signals are C11's business
     period, ta, grace, dur = sc["period"] * u, sc.get("ta"), sc["grace"] * u, sc["dur"] * u
@@ -444,7 +450,7 @@ def oracle_C11(sc, obs):
     shut = [(t * u, n) for t, n in effective_sigs(sc) if n in SHUT]
     if not shut:
         return None
-    stops = stopped_intervals(sc)
+    stops = stopped_intervals(sc, obs)
     t1, n1 = shut[0]
     dur, grace = sc["dur"] * u, sc["grace"] * u
     if sc.get("stops", True):
@@ -608,7 +614,7 @@ def oracle_C12(sc, obs, baseline=None):
         return w
     u = sc["u"]
     eps = 0.45 * u
-    stops = stopped_intervals(sc)
+    stops = stopped_intervals(sc, obs)
     if not stops:
         return None
     w = oracle_jobcontrol(sc, obs)
@@ -1193,7 +1199,7 @@ def oracle_life(sc, obs):
     sc = dict(sc, sigs=list(sc["sigs"])[:len(obs.get("sent", sc["sigs"]))])
     u = sc["u"]
     eps = 0.45 * u
-    stops = stopped_intervals(sc)
+    stops = stopped_intervals(sc, obs)
     shut = [(t * u, n) for t, n in effective_sigs(sc) if n in SHUT]   # received at the continue if sent while stopped
     cancel_t = None
     if shut:
